@@ -115,7 +115,6 @@ Al : as.sqrt -2.0
 Al->Cu : as.bornmayer 3.0 0.5
 Zr->Cu : as.polynomial 0.5 0.25
 Cu->Al : as.polynomial 1.0 0.5
-Cu->Zr : as.polynomial 0.75 0.0 0.125
 Al->Al : as.polynomial 0.25 0.0 0.5
 
 [Pair]
